@@ -1,4 +1,7 @@
 import Model.Bits
-import Model.Text
 import Model.Shortlex
+import Model.Table
+import Model.Kernel
+import Model.MV
+import Model.Text
 import Model.Tensor
